@@ -78,6 +78,28 @@ fn check(t: &mut Tape, ctx: &mut Ctx) -> CheckResult {
         require_iso(ctx, "lax-map-arrow-respects-pending", &img, &want_p, "F(f) for a lax f with pending unifications vs substitution into the quotiented f")?;
         ctx.class("lax-argument-with-pending-pairs");
     }
+    // lax functors whose operation images still carry (label-consistent) pending unifications
+    {
+        use crate::functor_model::OpKey;
+        use std::collections::BTreeMap;
+        let mut pend: BTreeMap<OpKey, Vec<(usize, usize)>> = BTreeMap::new();
+        let mut strictified = TableFunctor { obj: table.obj.clone(), ops: BTreeMap::new() };
+        let mut any = false;
+        for (k, img) in &table.ops {
+            let q = if t.chance(1, 2) { gen::pending_pairs(t, img, 2, true) } else { vec![] };
+            any |= q.iter().any(|(a, b)| a != b);
+            strictified.ops.insert(k.clone(), crate::model::Lax { d: img.clone(), q: q.clone() }.strictify().expect("consistent"));
+            pend.insert(k.clone(), q);
+        }
+        if any {
+            ctx.class("images-with-pending-pairs");
+            ctx.set_dump(format!("{}\npending in images = {:?}", ctx.dump, pend));
+            let lfp = LFunctorPending(table.clone(), pend);
+            let img = lfp.map_arrow(&to_lax_d(f));
+            let img = wf(ctx, "map-arrow-wf", from_lax(&img), "lax F(f), images with pending pairs")?.strictify().map_err(|e| ctx.fail("map-arrow-wf", format!("label conflict: {e}")))?;
+            require_iso(ctx, "lax-map-arrow-images-with-pending", &img, &substitute(f, &strictified), "F(f) for a lax functor whose images carry pending unifications")?;
+        }
+    }
     // functoriality
     let fg = f.compose(g).expect("composable");
     let l = strict_map(ctx, &table, &fg, "F(f;g)")?;
